@@ -7,99 +7,99 @@ COMMON_NOTE = (
 CHECKS = [
     {
         'property_id': 'C01',
-        'text': 'The grammar the recursive-descent parser denotes is extracted from its source (fail-closed IR, symbolic path summaries of every production) and decided once for all strings: precedence/associativity soundness w.r.t. the documented table, delimiter pairing, AST fidelity (nothing parsed is dropped or swapped), end-of-input check, cursor-primitive contracts, scanner token table (injective, raising default, whitespace-only skips, one token per lexeme helper), tilde count guard and implicit intercept, grouping transparency, total visitors. Thorough: bounded exhaustive comparison of the extracted grammar model against an independent Pratt parser.',
-        'design_ref': 'DESIGN.md section 3, C01 (R1.1-R1.11)',
+        'text': 'The grammar the recursive-descent parser denotes is extracted from its source (fail-closed IR, symbolic path summaries of every production) and decided once for all strings: precedence/associativity soundness w.r.t. the documented table, delimiter pairing, AST fidelity (nothing parsed is dropped or swapped), end-of-input check, cursor-primitive contracts, scanner token table (injective, raising default, whitespace-only skips, one token per lexeme helper), tilde count guard and implicit intercept, grouping transparency, total visitors. Thorough: bounded exhaustive comparison of the extracted grammar model against an independent Pratt parser. R1.12: the exponent of `**` is used or the formula is refused (term-set interpretation of the `**` overloads incl. the branch where the exponent is not a positive integer; reading an unbound local is a raising path). R1.4 also: the caller\'s formula string reaches Scanner(...) under its own parameter name, never re-bound, through design_matrices and model_description.',
+        'design_ref': 'DESIGN.md section 3, C01 (R1.1-R1.11); later rules: sections 7.6-7.17',
         'note': COMMON_NOTE,
         'technique': 'grammar extraction by abstract interpretation of the parser source; path-summary rules; CFG dominance; token-table extraction; abstract evaluation of the implicit-intercept insertion on a symbolic token list',
     },
     {
         'property_id': 'C02',
-        'text': 'Identity protocol (__eq__/__hash__ contracts, __eq__ compares every identity field as a whole) of the 12 classes used for term identity; dispatch completeness of the 7 operator overloads over the closed universe of 6 classes by type-level abstract interpretation (every operand shape the property quantifies over is supported; the 12 shapes that were unsupported on the pinned tree were repaired in /repo); expansion semantics: every overload is summarised by abstract interpretation in a term-set domain and compared with the documented Wilkinson-Rogers/lme4 expansion for 60 operand shapes (union, difference, a:b, a*b, a/b, **n, (e|g), ~); resolver operator map decided by partial evaluation of the dispatch per token kind (if-chain or lookup table alike); linear use of mutated sub-results; one-shot iterators consumed once (CFG reachability between consumers); duplicate-free containers. Not decided: term identity of call atoms beyond the protocol (value semantics of arguments).',
-        'design_ref': 'DESIGN.md section 3, C02 (R2.1-R2.5); section 7.2 (R2.6); section 4 F2-F5',
+        'text': 'Identity protocol (__eq__/__hash__ contracts, __eq__ compares every identity field as a whole) of the 12 classes used for term identity; dispatch completeness of the 7 operator overloads over the closed universe of 6 classes by type-level abstract interpretation (every operand shape the property quantifies over is supported; the 12 shapes that were unsupported on the pinned tree were repaired in /repo); expansion semantics: every overload is summarised by abstract interpretation in a term-set domain and compared with the documented Wilkinson-Rogers/lme4 expansion for 60 operand shapes (union, difference, a:b, a*b, a/b, **n, (e|g), ~); resolver operator map decided by partial evaluation of the dispatch per token kind (if-chain or lookup table alike); linear use of mutated sub-results; one-shot iterators consumed once (CFG reachability between consumers); duplicate-free containers. Not decided: term identity of call atoms beyond the protocol (value semantics of arguments). R2.7: the resolver hands the value of a parenthesised sub-expression on untouched (a temporary is used exactly once).',
+        'design_ref': 'DESIGN.md section 3, C02 (R2.1-R2.5); section 7.2 (R2.6); section 4 F2-F5; later rules: sections 7.6-7.17',
         'note': COMMON_NOTE,
         'technique': 'abstract interpretation of operator overloads (dispatch table over 6 classes; term-set summaries vs documented expansion); AST protocol lint; CFG dominance of membership guards',
     },
     {
         'property_id': 'C11',
-        'text': 'The lookup order (data > built-ins > caller locals > caller globals > extra_namespace, first match wins) is a syntactic fact of four list-building expressions and two loops; an abstract evaluation of list shapes decides it for all 2^5 scope subsets at once. Also decided: data-first for arguments only, getattr chain for dotted callees (symbolic evaluation for 1..5 name parts), no silent default on the resolution path, frame arithmetic of Environment.capture with its single call site (reference=1, directly in design_matrices), and that the captured environment is the one handed to every evaluation and reused at prediction. R11.8: every data column a call mentions is found by the used-variables extractor (else the name silently resolves in the environment).',
-        'design_ref': 'DESIGN.md section 3, C11 (R11.1-R11.7)',
+        'text': 'The lookup order (data > built-ins > caller locals > caller globals > extra_namespace, first match wins) is a syntactic fact of four list-building expressions and two loops; an abstract evaluation of list shapes decides it for all 2^5 scope subsets at once. Also decided: data-first for arguments only, getattr chain for dotted callees (symbolic evaluation for 1..5 name parts), no silent default on the resolution path, frame arithmetic of Environment.capture with its single call site (reference=1, directly in design_matrices), and that the captured environment is the one handed to every evaluation and reused at prediction. R11.8: every data column a call mentions is found by the used-variables extractor (else the name silently resolves in the environment). R11.9: nothing but the registered writers writes TRANSFORMS / ENCODINGS (writer scan of long-lived tables).',
+        'design_ref': 'DESIGN.md section 3, C11 (R11.1-R11.7); later rules: sections 7.6-7.17',
         'note': COMMON_NOTE,
         'technique': 'abstract evaluation of list-construction shapes; AST/CFG structural rules; symbolic evaluation of the callee resolver over name-part counts; who-calls check',
     },
     {
         'property_id': 'C17',
-        'text': "Slice bookkeeping is written at three sites; each loop body is evaluated abstractly in a domain of integer-linear / if-then-else / slice values (no solver): the stored value must be slice(S, S + W) under the term name for a loop-carried offset S that is 0 on entry and becomes S + W, W being the column count of the very block stacked for that term in the same iteration (the freshly evaluated one at prediction), same iteration order as the stacked blocks, no break/return. Also: label order = stacking order, every view reads the one design_matrix, unknown names are refused, the common matrix re-stacks the same terms in training order under the shared slices, printing has no assert/raise and uses the effect's real column count, one frame reaches all three matrices. Not decided: uniqueness of labels (depends on name injectivity, see C12) and numerical equality of the views. R17.8: one holder per component object (labels and slices are computed from different objects otherwise).",
-        'design_ref': 'DESIGN.md section 3, C17 (R17.1-R17.6); section 4 F12',
+        'text': "Slice bookkeeping is written at three sites; each loop body is evaluated abstractly in a domain of integer-linear / if-then-else / slice values (no solver): the stored value must be slice(S, S + W) under the term name for a loop-carried offset S that is 0 on entry and becomes S + W, W being the column count of the very block stacked for that term in the same iteration (the freshly evaluated one at prediction), same iteration order as the stacked blocks, no break/return. Also: label order = stacking order, every view reads the one design_matrix, unknown names are refused, the common matrix re-stacks the same terms in training order under the shared slices, printing has no assert/raise and uses the effect's real column count, one frame reaches all three matrices. Not decided: uniqueness of labels (depends on name injectivity, see C12) and numerical equality of the views. R17.8: one holder per component object (labels and slices are computed from different objects otherwise). R17.10: no axis-less squeeze on the evaluation path.",
+        'design_ref': 'DESIGN.md section 3, C17 (R17.1-R17.6); section 4 F12; later rules: sections 7.6-7.17',
         'note': COMMON_NOTE,
         'technique': 'abstract interpretation of the three slice-building loop bodies in a linear/if-then-else/slice value domain; CFG dominance; sibling agreement; who-may-write',
     },
     {
         'property_id': 'C09',
         'text': "Policy skeleton and the 'used variables' computation: design_matrices (new helpers inlined) is partially evaluated for each value of na_action and evaluated abstractly: any other value raises before every other effect; under 'pass' the column selection description.var_names & data.columns reaches DesignMatrices unchanged; under 'drop' it is that frame filtered positionally by the negated any-missing mask of the same frame (unfiltered only on the no-missing path; a label-based drop is reported); 'error' raises ValueError exactly under the any-missing condition; one frame for all three matrices; the set of used variables is decided by a union algebra over the var_names functions and var_names completeness by holder coverage and visitor coverage (child-bearing fields of the lazy call tree derived from inferred field types, every one traversed). Not decided: where NaN lands under 'pass' and equality with the run on the reduced frame (runtime relations). R9.5: interaction columns are plain products and nothing on the numeric path tests for or replaces missing values; R9.4 also requires in-place updates of used-variable sets to hit sets created on the spot (freshness over all var_names implementations).",
-        'design_ref': 'DESIGN.md section 3, C09 (R9.1-R9.4)',
+        'design_ref': 'DESIGN.md section 3, C09 (R9.1-R9.4); later rules: sections 7.6-7.17',
         'note': COMMON_NOTE,
         'technique': 'partial evaluation of design_matrices per option value + abstract interpretation of the frame that reaches the constructor; union algebra for set-valued functions; visitor-coverage check driven by the type inference; freshness analysis of set-valued properties; NaN-masking lint on the numeric path',
     },
     {
         'property_id': 'C10',
-        'text': "Policy plumbing: closed configuration (validated __setattr__, no other writer, default 'error'); every literal compared with the configuration is a declared value and the consumers raise / warn-and-fall-through as documented; zeroing discipline of both eval_new_data_categoric siblings (same mask for index patch and zeroing, fresh copy of remembered rows, masked store) and equality of their abstract summaries; new-group bookkeeping (trailing conditional block set on exactly the unseen rows, slices rebuilt from new widths, factors_with_new_levels per factor once). Not decided: the values inside the blocks. The zeroing discipline is decided on a per-case table (code = -1 / 0 / >0) computed by abstract interpretation, with alias/copy and freshness tracking; R10.7: the evaluation code of variables, calls and terms stores nothing at prediction (the policy is consulted by every evaluation).",
-        'design_ref': 'DESIGN.md section 3, C10 (R10.1-R10.5)',
+        'text': "Policy plumbing: closed configuration (validated __setattr__, no other writer, default 'error'); every literal compared with the configuration is a declared value and the consumers raise / warn-and-fall-through as documented; zeroing discipline of both eval_new_data_categoric siblings (same mask for index patch and zeroing, fresh copy of remembered rows, masked store) and equality of their abstract summaries; new-group bookkeeping (trailing conditional block set on exactly the unseen rows, slices rebuilt from new widths, factors_with_new_levels per factor once). Not decided: the values inside the blocks. The zeroing discipline is decided on a per-case table (code = -1 / 0 / >0) computed by abstract interpretation, with alias/copy and freshness tracking; R10.7: the evaluation code of variables, calls and terms stores nothing at prediction (the policy is consulted by every evaluation). R10.8: a box over plain / unordered data takes its levels from the observed values (box obligations of R4.3).",
+        'design_ref': 'DESIGN.md section 3, C10 (R10.1-R10.5); later rules: sections 7.6-7.17',
         'note': COMMON_NOTE,
         'technique': 'CFG region/dominance analysis of Config.__setattr__; literal-domain agreement; def-use identity of masks; sibling summary comparison; abstract evaluation of the new-group bookkeeping loop (shared model with C17); per-case abstract interpretation (code -1/0/>0) of the zeroing code with alias and freshness tracking; prediction-path write analysis',
     },
     {
         'property_id': 'C12',
-        'text': "Grammar/table agreement and naming for Python expressions inside calls: the grammar extracted for C01, restricted to the operator kinds CallResolver accepts, is compared pairwise with Python's precedence and associativity (3 genuine divergences recorded as known findings: ** left-associative, unary sign above **, comparison chains left-nested); scanner lexeme -> token kind -> operator.<fn> -> printed symbol composes to the identity and each fn is Python's function for that operator; argument plumbing; {e} = I(e) and I is the identity; literal conversion (abstract evaluation of the scanner's number helpers: float exactly on the paths that consumed a '.'); name field coverage plus an injectivity detector; the operator printer's precedence table agrees with the extracted grammar (parentheses kept where needed; the defect found here was repaired in /repo). Not decided: numerical equality with eval(). R12.7: every data column a call mentions is found by the used-variables extractor.",
-        'design_ref': 'DESIGN.md section 3, C12 (R12.1-R12.6); section 4 F10, F11',
+        'text': "Grammar/table agreement and naming for Python expressions inside calls: the grammar extracted for C01, restricted to the operator kinds CallResolver accepts, is compared pairwise with Python's precedence and associativity (3 genuine divergences recorded as known findings: ** left-associative, unary sign above **, comparison chains left-nested); scanner lexeme -> token kind -> operator.<fn> -> printed symbol composes to the identity and each fn is Python's function for that operator; argument plumbing; {e} = I(e) and I is the identity; literal conversion (abstract evaluation of the scanner's number helpers: float exactly on the paths that consumed a '.'); name field coverage plus an injectivity detector; the operator printer's precedence table agrees with the extracted grammar (parentheses kept where needed; the defect found here was repaired in /repo). Not decided: numerical equality with eval(). R12.7: every data column a call mentions is found by the used-variables extractor. R12.8: the formula text reaches the scanner untouched. R12.9: a literal reaches the evaluation as the scanner built it (Literal / LazyValue store what they are given, visitLiteralExpr hands expr.value on, eval returns it).",
+        'design_ref': 'DESIGN.md section 3, C12 (R12.1-R12.6); section 4 F10, F11; later rules: sections 7.6-7.17',
         'note': COMMON_NOTE,
         'technique': 'extracted-grammar vs reference-table comparison; three-table agreement; abstract interpretation of scanner helpers; AST structural rules',
     },
     {
         'property_id': 'C06',
-        'text': 'Freeze-at-training discipline on the typed call graph of the prediction path: fit-once typestate of every registered stateful transform (data-tainted stores under a closed freshness guard, interprocedural), row-locality (every aggregate of the new frame on the path is guarded, allow-listed with a reason, or subset-closed validation; binary() and CategoricalBox.levels are known findings), remembered coding reused (no recoding / training step reachable), single holder per component at all 22 constructor sites, sibling agreement training<->prediction, every eval_new_data* result depends on the new frame. Not decided: the matrix identity itself (runtime relation). One holder per component also for a single operator application next to a surviving operand (`Model(self, self @ other)`).',
-        'design_ref': 'DESIGN.md section 3, C06 (R6.1-R6.6); section 4 F6-F9',
+        'text': 'Freeze-at-training discipline on the typed call graph of the prediction path: fit-once typestate of every registered stateful transform (data-tainted stores under a closed freshness guard, interprocedural), row-locality (every aggregate of the new frame on the path is guarded, allow-listed with a reason, or subset-closed validation; binary() and CategoricalBox.levels are known findings), remembered coding reused (no recoding / training step reachable), single holder per component at all 22 constructor sites, sibling agreement training<->prediction, every eval_new_data* result depends on the new frame. Not decided: the matrix identity itself (runtime relation). One holder per component also for a single operator application next to a surviving operand (`Model(self, self @ other)`). R6.9: no axis-less squeeze on the evaluation path (a one-row frame keeps its row axis; positive control on every run).',
+        'design_ref': 'DESIGN.md section 3, C06 (R6.1-R6.6); section 4 F6-F9; later rules: sections 7.6-7.17',
         'note': COMMON_NOTE,
         'technique': 'closed-world type inference + typed call-graph reachability; intraprocedural taint with an aggregation catalogue; guard typestate (dominance/closure); ownership classification of constructor sites',
     },
     {
         'property_id': 'C07',
         'text': "Isolation as an effects property: every attribute write reachable from evaluate_new_data targets a fresh/under-construction object, a stateful transform under its fit-once regime, or the write-once transform slot; every in-place array/container mutation on that path and in the registry targets an object created in the same call (reaching definitions + freshness lattice); the inventory of long-lived state (module/class-level mutables, their writers, mutable defaults, global, memoisation decorators) is closed; fitted state is per instance; the caller's frame and namespace are never written (only new frames reach the design, on every path of every na_action; user-supplied encoding objects are written by their constructor only); a Model is built per design; no randomness and no set-order dependence of labels/columns. Not decided: numerical equality across histories (follows only if user functions are pure). Determinism across interpreter runs: containers filled in the iteration order of a set are followed through the program (nesting depth, typed call graph) and every order-sensitive use is reported (R7.7).",
-        'design_ref': 'DESIGN.md section 3, C07 (R7.1-R7.7)',
+        'design_ref': 'DESIGN.md section 3, C07 (R7.1-R7.7); later rules: sections 7.6-7.17',
         'note': COMMON_NOTE,
         'technique': 'effect analysis over the typed call graph; reaching definitions on the CFG + freshness lattice; who-may-write inventory with positive controls; interprocedural flow analysis of hash-ordered containers (nesting-depth lattice over the typed call graph)',
     },
     {
         'property_id': 'C15',
-        'text': "Plumbing and independence clauses only: single-term guard of the response (CFG regions, cannot be bypassed), set_type before set_data and full coding for the response, y[level] plumbing parser -> resolver -> Variable.reference -> the guarded branch, non-interference (no predictor-side function reads .response; is_response read only by the y[level] branch and two misuse guards), response is None without one, prop columns/guards. NOT decided: the point-wise meaning of the response columns (runtime fact). R15.8: built-in helpers (prop, p, proportion) win over the caller's names (C11's R11.1/R11.2).",
-        'design_ref': 'DESIGN.md section 3, C15 (R15.1-R15.6)',
+        'text': "Plumbing and independence clauses only: single-term guard of the response (CFG regions, cannot be bypassed), set_type before set_data and full coding for the response, y[level] plumbing parser -> resolver -> Variable.reference -> the guarded branch, non-interference (no predictor-side function reads .response; is_response read only by the y[level] branch and two misuse guards), response is None without one, prop columns/guards. NOT decided: the point-wise meaning of the response columns (runtime fact). R15.8: built-in helpers (prop, p, proportion) win over the caller's names (C11's R11.1/R11.2). R15.9: the full coding used for the response is the identity over the caller's level list with labels in the same order.",
+        'design_ref': 'DESIGN.md section 3, C15 (R15.1-R15.6); later rules: sections 7.6-7.17',
         'note': COMMON_NOTE,
         'technique': 'CFG region/dominance checks; who-reads/who-writes inventory; path summaries of the extracted grammar for the subset notation',
     },
     {
         'property_id': 'C16',
-        'text': "Synonymy, recomputation at prediction and guards: aliases bind one object in the statically extracted registry; T/S build the same CategoricalBox construction as C with Treatment/Sum, every option reaches the box and is read back; I is the identity; offset/prop prediction-time code uses the NEW frame (row count, column by name, re-evaluated call); misuse guards dominate effects; structural definition of binary / prop columns. binary() re-deriving its default and refusal from the new frame is a known finding. Not decided: point-wise values beyond these facts. R16.2 also covers the order in which the namespace list is built and consulted (C11's R11.1).",
-        'design_ref': 'DESIGN.md section 3, C16 (R16.1-R16.6); section 4 F8',
+        'text': "Synonymy, recomputation at prediction and guards: aliases bind one object in the statically extracted registry; T/S build the same CategoricalBox construction as C with Treatment/Sum, every option reaches the box and is read back; I is the identity; offset/prop prediction-time code uses the NEW frame (row count, column by name, re-evaluated call); misuse guards dominate effects; structural definition of binary / prop columns. binary() re-deriving its default and refusal from the new frame is a known finding. Not decided: point-wise values beyond these facts. R16.2 also covers the order in which the namespace list is built and consulted (C11's R11.1). R16.7: no dtype-narrowing store of real-valued blocks. R16.8: T(x, ref) / S(x, omit) code the requested level for every level value (default exactly under `is None`).",
+        'design_ref': 'DESIGN.md section 3, C16 (R16.1-R16.6); section 4 F8; later rules: sections 7.6-7.17',
         'note': COMMON_NOTE,
         'technique': 'registry extraction; structural equality of constructions; CFG dominance of guards; taint/aggregate analysis restricted to helper functions',
     },
     {
         'property_id': 'C04',
         'text': 'Ordering, source and ownership clauses: an order algebra derives the major-to-minor column order at the sites that combine factors (get_interaction_matrix, the two reduce folds, itertools.product in labels/levels) and requires identical conventions; values and labels have one source (codes of the categorical whose categories were coded; labels read from the same contrast object; zero / -1 row index = removed label index); level lists are canonical unless declared; numeric identity through representation changes only; one holder per component; label order = stacking order. NOT decided: point-wise equality of a column with its data. New data: the rows returned for a categorical code are decided by an abstract interpretation of the slow path of eval_new_data_categoric over the three cases code = -1 / 0 / >0 (R4.8); a:b columns are plain element-wise products (R4.1).',
-        'design_ref': 'DESIGN.md section 3, C04 (R4.1-R4.6)',
+        'design_ref': 'DESIGN.md section 3, C04 (R4.1-R4.6); later rules: sections 7.6-7.17',
         'note': COMMON_NOTE,
         'technique': 'order algebra over loop nests / comprehensions / product / reduce / khatri_rao; def-use identity; order-kind lattice; ownership classification; per-case abstract interpretation of the unseen-level zeroing',
     },
     {
         'property_id': 'C05',
-        'text': 'Block structure and ordering: factor-major Kronecker order at the training and prediction sites and in labels/groups (order algebra), complete indicators for the factor, trailing conditional new-group block, the reduced-iff rule as written, finite-state abstract interpretation of the implicit-intercept logic of `|` over all 4 states, every (effect, factor) pair formed, no effect object under two factors. NOT decided: rank/span on crossed data and whether the simplified coding rule equals the common-effects rule.',
-        'design_ref': 'DESIGN.md section 3, C05 (R5.1-R5.6)',
+        'text': 'Block structure and ordering: factor-major Kronecker order at the training and prediction sites and in labels/groups (order algebra), complete indicators for the factor, trailing conditional new-group block, the reduced-iff rule as written, finite-state abstract interpretation of the implicit-intercept logic of `|` over all 4 states, every (effect, factor) pair formed, no effect object under two factors. NOT decided: rank/span on crossed data and whether the simplified coding rule equals the common-effects rule. R5.8: contrast obligations of the reduced / full codings (zero / -1 row at the position whose label is removed; default reference exactly under `is None`).',
+        'design_ref': 'DESIGN.md section 3, C05 (R5.1-R5.6); later rules: sections 7.6-7.17',
         'note': COMMON_NOTE,
         'technique': 'order algebra; finite-state abstract interpretation of Model.__or__; abstract evaluation of the product operands and of the coding decision (truth table over opaque atoms); CFG must-pass; ownership classification',
     },
     {
         'property_id': 'C08',
         'text': 'Order- and label-independence clauses: canonical level order wherever levels or defaults are picked; permutation-invariant fitting (no positional row access or order-dependent operation on row-ordered values in transforms, registry functions and evaluation code; row-ordered taint that stops at order-invariant reductions); by-name column access only; irrelevant columns cut first and .index read only under len(); the row filter is the negated mask of the very frame it filters (decided on the abstract value of the frame handed to the design), never a label-based drop. Not decided: that pandas/numpy primitives are themselves equivariant; floating-point summation order. No evaluation code re-labels the index of a value (R8.4).',
-        'design_ref': 'DESIGN.md section 3, C08 (R8.1-R8.5)',
+        'design_ref': 'DESIGN.md section 3, C08 (R8.1-R8.5); later rules: sections 7.6-7.17',
         'note': COMMON_NOTE,
         'technique': 'row-ordered taint with reduction barrier; positional-access lint; reaching-definition identity; order-kind lattice; index-relabelling lint over all evaluation code',
     },
